@@ -410,7 +410,7 @@ fn config_failures(st: &mut Stats) -> Vec<(String, Value)> {
 pub fn run(ctx: &Ctx) -> i32 {
     let mut acc = Acc::new(ctx);
     let wl = Workspaces {
-        n: if ctx.quick() { 600 } else { 12_000 },
+        n: if ctx.quick() { 1500 } else { 12_000 },
     };
     acc.pool(&wl, "c13", false);
     let mut st = Stats::new();
